@@ -275,8 +275,12 @@ func init() {
 		w := cur
 		w.ctorCalls++
 		tag := strconv.FormatInt(cfg.MaxConcurrency, 10)
-		if tag != w.lastCfg || root != rootDir {
-			w.ctorCfgBad = fmt.Sprintf("constructor got root=%q config tag=%s, Init request had root=%q config tag=%s", root, tag, rootDir, w.lastCfg)
+		wantRoot := rootDir
+		if w.lastCfg == "2" {
+			wantRoot = rootDir + "/"
+		}
+		if tag != w.lastCfg || root != wantRoot {
+			w.ctorCfgBad = fmt.Sprintf("constructor got root=%q config tag=%s, Init request had root=%q config tag=%s", root, tag, wantRoot, w.lastCfg)
 		}
 		if w.takeFault("ctor") {
 			return nil, fmt.Errorf("verif: injected filesystem construction failure")
@@ -668,7 +672,11 @@ func (w *world) step(o op) (obs stepObs, post *snap) {
 		w.inOp = true
 		switch o.Kind {
 		case 'I':
-			_, err = w.srv.Init(ctx, &pb.InitRequest{Root: rootDir, Config: cfgBytes(o.Arg)})
+			root := rootDir
+			if o.Arg == "2" {
+				root = rootDir + "/" // the same directory spelled differently: re-initialisation must not depend on it
+			}
+			_, err = w.srv.Init(ctx, &pb.InitRequest{Root: root, Config: cfgBytes(o.Arg)})
 		case 'M':
 			labels = w.labelsFor(o.Arg)
 			_, err = w.srv.Mount(ctx, &pb.MountRequest{Mountpoint: mpPath[o.Arg], Labels: cp(labels)})
